@@ -15,6 +15,30 @@ import (
 
 var knownOpen = map[string]bool{}
 
+// splitSeen / splitRange: for every variable handed to verifrt.Split, the values
+// explored on some path and the declared range. A value never explored means
+// part of the case split was lost.
+var (
+	splitSeen  = map[string]map[uint64]bool{}
+	splitRange = map[string][2]uint64{}
+)
+
+func splitGaps() []string {
+	var gaps []string
+	for name, r := range splitRange {
+		for v := r[0]; v <= r[1]; v++ {
+			if !splitSeen[name][v] {
+				gaps = append(gaps, fmt.Sprintf("%s=%d", name, v))
+			}
+		}
+	}
+	sort.Strings(gaps)
+	return gaps
+}
+
+// choiceOpts: options each named choice was declared with.
+var choiceOpts = map[string][]string{}
+
 type watchRec struct {
 	name string
 	t    *Term
@@ -114,6 +138,10 @@ func (e *Engine) rtCall(name string, args []Value, st *State, depth int, site ss
 		if len(opts) == 1 {
 			return one(st, strConst(opts[0]))
 		}
+		if prev, ok := choiceOpts[str(0)]; ok && !sameOpts(prev, opts) {
+			e.unsupported("verifrt.Choice(%q) declared twice with different options %q and %q", str(0), prev, opts)
+		}
+		choiceOpts[str(0)] = opts
 		sel := NewVarRange(str(0), 8, 0, uint64(len(opts)-1))
 		return one(st, strChoice(sel, opts))
 	case "ChoiceAt":
@@ -232,6 +260,14 @@ func (e *Engine) rtCall(name string, args []Value, st *State, depth int, site ss
 			ns.Assume(c)
 			if e.solver.Check(ns.pc) == ResUnsat {
 				continue
+			}
+			if t.op == OpVar {
+				// coverage of case splits: which values of the declared range were taken
+				if splitSeen[t.name] == nil {
+					splitSeen[t.name] = map[uint64]bool{}
+					splitRange[t.name] = [2]uint64{t.lo, t.hi}
+				}
+				splitSeen[t.name][v] = true
 			}
 			outs = append(outs, Outcome{st: ns, ret: BV(v, t.w)})
 		}
